@@ -157,7 +157,9 @@ def constant_candidates(spec, name):
 
 
 def close(a, b, scale):
-  return abs(a - b) <= 1e-5 * max(abs(a), abs(b)) + 1e-7 * scale + 1e-30
+  # float32 EMA over <= 12 terms: |error| <= ~12 * 3 * 6e-8 * scale = 2.2e-6 * scale; every breakage this
+  # oracle is meant for (wrong weight, double fold, skipped or reordered sample) errs by >= 1e-3 * scale
+  return abs(a - b) <= 1e-5 * max(abs(a), abs(b)) + 5e-6 * scale + 1e-30
 
 
 def check_values(rec, step, spec, result, mm, label):
@@ -199,7 +201,10 @@ def check_values(rec, step, spec, result, mm, label):
     if not mins:
       continue
     emn, emx = refmodel.ema_reference(mins), refmodel.ema_reference(maxs)
-    scale = max(abs(emn), abs(emx), 1e-6)
+    # The library folds in float32. Its rounding error is relative to the magnitude of the folded
+    # *terms*, not of the result (terms of both signs can cancel to a small average), so the
+    # absolute part of the tolerance scales with the largest per-sample |min|/|max| of the tensor.
+    scale = max([abs(v) for v in mins] + [abs(v) for v in maxs] + [1e-6])
     rec.probe('runtime_checked')
     if len(mn) != 1 or len(mx) != 1 or not close(mn[0], emn, scale) or not close(mx[0], emx, scale):
       rec.violate('C09/ema-mismatch/runtime', step,
